@@ -25,6 +25,7 @@ mod real;
 mod realseq;
 mod settings;
 mod small;
+mod sock;
 mod unreal2;
 mod valve;
 mod views;
@@ -59,6 +60,7 @@ fn entries() -> Vec<(&'static str, EntryFn)> {
     v.extend(small::entries());
     v.extend(httpx::entries());
     v.extend(http::entries());
+    v.extend(sock::entries());
     v
 }
 
